@@ -2110,6 +2110,7 @@ class Interp(object):
                 ctx.assume(f)
             item = self.seq_get_sym(it, kk)
             self.assign_target(node.target, item, env)
+            ctx.loop_k = (tag, kk)        # an exception escaping from here happened in iteration kk
             try:
                 self.exec_block(node.body, env)
             except _Continue:
